@@ -158,6 +158,9 @@ func CheckC10(e *Env) int {
 	addSamples(rep, results, 2)
 	// false-conflict probes
 	runRejectCases(e, rep, append(indirectUseControls(), c10Probes()...), "c10p")
+	// value expressions: the same expression listed in the injector's own package and in a set
+	// declared by another package must be accepted in both places and deliver the same value
+	runValueCases(e, rep, c13RelocationExprs(), "c10v")
 	if rep.Counters["variant_wiring_compared"] == 0 {
 		rep.Incon = append(rep.Incon, "no variant pair was compared")
 	}
@@ -406,6 +409,7 @@ func CheckC14(e *Env) int {
 	progs = append(progs, errNameProgs(e)...)
 	progs = append(progs, lateImportProgs()...)
 	progs = append(progs, inventedParamNameFamily()...)
+	progs = append(progs, paramLocalCollisionFamily()...)
 	results := RunPool(e, progs, PoolOpts{Execute: true, Name: "c14"})
 	byKey := map[key]*ProgResult{}
 	for _, pr := range results {
